@@ -473,7 +473,11 @@ class Interp:
 
     def external(self, qual: str):
         if qual in self.e.ext_models:
-            return self.e.ext_models[qual]
+            mdl = self.e.ext_models[qual]
+            import types
+            if isinstance(mdl, (types.FunctionType, types.MethodType)):
+                return Builtin(qual, lambda *a, **k: mdl(self, list(a), k))
+            return mdl
         from . import builtins_model
         v = builtins_model.external(self, qual)
         if v is not None:
@@ -598,7 +602,9 @@ class Interp:
     def s_Assert(self, st, fr):
         if not self.truth(self.eval(st.test, fr)):
             msg = self.eval(st.msg, fr) if st.msg is not None else None
-            raise PyRaise(self.make_exc("AssertionError", *([msg] if msg is not None else [])))
+            ex = self.make_exc("AssertionError", *([msg] if msg is not None else []))
+            ex.where = f"{fr.module.path}:{st.lineno}"
+            raise PyRaise(ex)
 
     def s_Raise(self, st, fr):
         if st.exc is None:
@@ -615,6 +621,8 @@ class Interp:
             exc = self.call(exc, [], {})
         if st.cause is not None:
             self.eval(st.cause, fr)
+        if isinstance(exc, SObj) and not hasattr(exc, "where"):
+            exc.where = f"{fr.module.path}:{st.lineno}"
         raise PyRaise(exc)
 
     def s_FunctionDef(self, st, fr):
@@ -823,7 +831,7 @@ class Interp:
 
     def e_Subscript(self, n, fr):
         o = self.eval(n.value, fr)
-        if isinstance(o, (ClassVal, ExtVal)) or o in (list, dict, tuple, set):
+        if isinstance(o, (ClassVal, ExtVal)) or (isinstance(o, Builtin) and o.name in self.e.bclasses):
             # generic alias such as list[int], Generic[T]
             return o
         return self.getitem(o, self.eval_index(n.slice, fr))
@@ -1020,15 +1028,19 @@ class Interp:
                     if out is not NotImplemented:
                         return out
             self.throw("TypeError", f"unsupported operand type(s) for {op}")
-        if isinstance(l, (ClassVal, ExtVal)) or isinstance(r, (ClassVal, ExtVal)) or l is None or r is None:
-            if op == "|":
-                return ("union", l, r)  # typing union
+        def _tylike(x):
+            return isinstance(x, (ClassVal, ExtVal)) or x is None or (isinstance(x, Builtin) and x.name in self.e.bclasses) \
+                or (isinstance(x, tuple) and len(x) == 3 and x[0] == "union")
+        if op == "|" and _tylike(l) and _tylike(r):
+            return ("union", l, r)  # typing union
         if isinstance(l, tuple) and l and l[0] == "union" and op == "|":
             return ("union", l, r)
         if isinstance(l, Sym) or isinstance(r, Sym):
             raise Unsupported(f"binary {op} on {l!r}, {r!r}")
         if isinstance(l, dict) and isinstance(r, dict) and op == "|":
             return {**l, **r}
+        if not (_plain(l) and _plain(r)):
+            raise Unsupported(f"binary {op} on {l!r}, {r!r}")
         try:
             return _PYOPS[op](l, r)
         except ZeroDivisionError:
@@ -1141,6 +1153,12 @@ class Interp:
             if op == "==":
                 return v
             return lift(z3.Not(v.t)) if isinstance(v, SBool) else (not v)
+        if not (_plain(l) and _plain(r)):
+            if op == "==":
+                return l is r
+            if op == "!=":
+                return l is not r
+            raise Unsupported(f"comparison {op} on {l!r}, {r!r}")
         try:
             return _PYOPS[op](l, r)
         except TypeError as ex:
@@ -1388,6 +1406,16 @@ class Interp:
 _PENDING = object()
 
 
+def _plain(v):
+    if v is None or isinstance(v, (bool, int, float, str, bytes, range, slice, complex)):
+        return True
+    if isinstance(v, (list, tuple, set, frozenset)):
+        return all(_plain(x) for x in v)
+    if isinstance(v, dict):
+        return all(_plain(k) and _plain(x) for k, x in v.items())
+    return False
+
+
 def _intlike(v):
     return isinstance(v, (SInt, SBool, int)) and not isinstance(v, str)
 
@@ -1434,3 +1462,20 @@ def _dc_params(cls):
 
 def _compare_field(cls, name):
     return name not in getattr(cls, "nocompare", ())
+
+
+def _exec_snippet(self, module, src, env=None):
+    """Run harness code (NOT repository code) in the namespace of a repo module; used to drive
+    real classes through Python's own protocols (e.g. a `with` statement)."""
+    tree = ast.parse(src)
+    fr = Frame(module)
+    fr.locals = dict(env or {})
+    fr.func = None
+    try:
+        self.exec_block(tree.body, fr)
+    except _Return as r:
+        fr.locals["__return__"] = r.value
+    return fr.locals
+
+
+Interp.exec_snippet = _exec_snippet
